@@ -10,6 +10,10 @@ SPEC = {
     "streams": [
         {"kind": "CASE", "type": "(schema * document * outcome cc)",
          "eval": "fun c => let '(s, d, i) := c in check_case s d 400 i", "per_shard": 60},
+        # the hints written in the derive attributes of the harness schema vs the registry the macros produced
+        {"kind": "DECL", "requires": "From AG Require Import CacheDecl.", "type": "(schema * list (name * cc * list (name * cc)))",
+         "eval": "check_decl", "per_shard": 10,
+         "what_violation": "a cache_control attribute written on a derive-built type or field does not reach the registry (the policy computed from the registry is then looser than the declared data)"},
         {"kind": "LAW", "type": "(list cc * cc * (Z * bool))",
          "eval": "fun c => let '(l, r, h) := c in check_law l r h", "per_shard": 1000},
     ],
@@ -20,7 +24,7 @@ SPEC = {
     "rule": ("documents generated from generated (injected registry) and derive-built schemas, strict and fast "
              "validation mode, plus all pairs over 18 boundary policies and random tuples for the merge/header laws; "
              "distinct by (schema, text, mode); non-trivial = computed policy differs from the default policy"),
-    "trusted": ["tools/facts.py (merge/value arms -> CacheGen.v)", "harness registry dump + document printer",
+    "trusted": ["tools/facts.py (merge/value arms -> CacheGen.v)", "harness registry dump + document printer", "the hand-written table of declared hints of the derive-built schema (fixed::declared in c20.rs)",
                 "differential sampling: Cache.v walk = CacheControlCalculate on this run's cases"],
     "assumptions": [
         "registry hints satisfy max_age >= -1 (values the macro attributes can produce)",
@@ -36,7 +40,8 @@ MANIFEST = {
              "idempotent with unit, for all integers; for selections only on object types the visitor's policy equals the "
              "combination over every reachable object/field policy and is never looser than any of them (any schema, document, depth); "
              "the faithful model refutes the full statement behind interface/union fields (recorded known finding). "
-             "The walk model is tied to the real validator by running both on generated schemas and documents."),
+             "The walk model is tied to the real validator by running both on generated schemas and documents; the registry is tied to the "
+             "attributes written on a derive-built schema (Object, SimpleObject, concrete generic SimpleObject, ComplexObject) by a declared-hints table."),
     "note": ("trusted: Coq kernel, tools/facts.py, harness registry dump/document printer, sampled agreement model vs code; "
              "theorems closed under the global context (no axioms)"),
 }
